@@ -50,7 +50,43 @@ fn rows(m: &M4) -> Vec<Vec<i64>> {
     (0..3).map(|i| (0..4).map(|j| s(m.0[i][j])).collect()).collect()
 }
 
+fn exec_bigrot(case: &Value) -> Value {
+    const QS: f64 = 16384.0;
+    let q = |x: f32| -> i64 { let v = (x as f64 * QS).round(); if v.is_finite() { v.clamp(-2e9, 2e9) as i64 } else { 2_000_000_000 } };
+    let mut e = case.clone();
+    let r = guard(|| {
+        let a = degs(gi(case, "deg") as f32);
+        let m: M4 = match gs(case, "axis") { "x" => rotate_x(a), "y" => rotate_y(a), _ => rotate_z(a) };
+        let tr = m.transpose();
+        let prod = m.compose(&tr.to());
+        let inv = m.inverse();
+        let m3 = |m: &M4| -> Vec<Vec<i64>> { (0..3).map(|i| (0..3).map(|j| q(m.0[i][j])).collect()).collect() };
+        json!({"q": m3(&prod), "det": q(m.determinant()), "inv": m3(&inv.to()), "tr": (0..3).map(|i| (0..3).map(|j| q(tr.0[i][j])).collect::<Vec<_>>()).collect::<Vec<_>>()})
+    });
+    let o = e.as_object_mut().unwrap();
+    match r {
+        Some(v) => {
+            for (k, x) in v.as_object().unwrap() {
+                o.insert(k.clone(), x.clone());
+            }
+            o.insert("panic".into(), json!(0));
+        }
+        None => {
+            let z = json!([[0, 0, 0], [0, 0, 0], [0, 0, 0]]);
+            for k in ["q", "inv", "tr"] {
+                o.insert(k.into(), z.clone());
+            }
+            o.insert("det".into(), json!(0));
+            o.insert("panic".into(), json!(1));
+        }
+    }
+    e
+}
+
 pub fn exec(case: &Value) -> Value {
+    if case.get("op").and_then(|v| v.as_str()) == Some("bigrot") {
+        return exec_bigrot(case);
+    }
     let path = case["path"].as_array().unwrap();
     let mut e = case.clone();
     let r = guard(|| {
@@ -131,6 +167,12 @@ pub fn gen(args: &Args, out: &mut dyn Write) {
     // random longer paths (the exhaustive short ones are exported by TLC)
     let n = args.n.unwrap_or(if args.tier == "thorough" { 20000 } else { 2000 });
     let mut rng = Rng::new(args.seed ^ 0xF0A);
+    // rotations by thousands of turns (only that they ARE rotations is judged)
+    for (j, deg) in [470_000i64, 1_000_000, -2_500_000, 720_090, 16_000_000, -3_000_017, 5_243_000, 9_999_999].iter().enumerate() {
+        for axis in ["x", "y", "z"] {
+            writeln!(out, "{}", json!({"k": format!("b{}-{}{}", args.seed, j, axis), "op": "bigrot", "axis": axis, "deg": deg, "path": []})).unwrap();
+        }
+    }
     for i in 0..n {
         let len = rng.range(1, 3);
         let rot = i % 5 == 0;
